@@ -82,7 +82,7 @@ fn get_node_cover_range_impl(
     let node_range = node.range();
     (node_range.start <= range.start
         && node_range.end >= range.end
-        && (node.is::<Markup>() || node.is::<Expr>() || node.is::<Pattern>())
+        && (is_root_markup(&node) || node.is::<Expr>() || node.is::<Pattern>())
         && !is_callee(&node))
     .then(|| (node.span(), mode))
     // It returns span to avoid problems with borrowing.
@@ -95,4 +95,10 @@ fn is_callee(node: &LinkedNode<'_>) -> bool {
         && node
             .parent()
             .is_some_and(|parent| parent.kind() == SyntaxKind::FuncCall)
+}
+
+/// The body of a content block, strong/emph, heading or list item is formatted through the enclosing node, which
+/// knows how to treat the blanks at its edges and the indentation of nested items.
+fn is_root_markup(node: &LinkedNode<'_>) -> bool {
+    node.is::<Markup>() && node.parent().is_none()
 }
